@@ -383,7 +383,7 @@ def misc_part(st, ctx, out):
     sim = new_sim(st, interrupts=False)
     common.set_interrupts(sim, (1, 2, 0)[ch.draw(3)])
     L = lib()
-    what = ch.draw(3)
+    what = ch.draw(4)
     problems = []
     detail = {}
 
@@ -457,6 +457,44 @@ def misc_part(st, ctx, out):
                 problems.append("closing awaited aclose %d times" % Thing.closed)
 
         sim.spawn(task())
+    elif what == 3:
+        n = ch.between(2, 3)
+        take = ch.draw(3)
+        detail = {"kind": "zip over sources whose aclose raises", "sources": n, "items_taken": take}
+
+        class CloseFails(Exception):
+            pass
+
+        class Src:
+            def __init__(self, k):
+                self.k, self.i = k, 0
+
+            def __aiter__(self):
+                return self
+
+            async def __anext__(self):
+                await pause(1, "source")
+                self.i += 1
+                if self.i > 3:
+                    raise StopAsyncIteration
+                return (self.k, self.i)
+
+            async def aclose(self):
+                await pause(1, "aclose")
+                raise CloseFails(self.k)
+
+        async def task():
+            it = L.zip(*[Src(k) for k in range(n)])
+            for _ in range(take):
+                await it.__anext__()
+            try:
+                await it.aclose()
+            except CloseFails:
+                pass  # whichever close failure surfaces is the sources' doing
+            except BaseException as err:  # noqa
+                problems.append("closing zip over sources whose aclose raises gave %r" % (err,))
+
+        sim.spawn(task())
     else:
         maxsize = (None, None, 1, 2, 0)[ch.draw(5)]
         keys = [ch.draw(3) for _ in range(ch.between(1, 5))]
@@ -495,7 +533,8 @@ def misc_part(st, ctx, out):
 
         sim.spawn(task())
     run_sim(sim)
-    sig = ("misc", ("exitstack_two_tasks", "closing", "generator_based_coroutines")[what])
+    sig = ("misc", ("exitstack_two_tasks", "closing", "generator_based_coroutines", "zip_close_failures",
+                    "generator_based_coroutines")[what if what != 3 else 3])
     if sim.deadlock:
         out.violate("C17.deadlock", sig, detail)
     elif not sim.capped:
